@@ -59,3 +59,50 @@ PROPS["C04"] = {
     "modelled_not_verified": ["block split / squash (units of one block are consecutive by construction of units_of_item; the implementation's splice is compared through the unit-expanded dump)"],
     "assumptions": [],
 }
+
+import json as _json, os as _os
+_GEN = _json.load(open(_os.path.join(_os.path.dirname(_os.path.abspath(__file__)), "props_generated.json")))
+_MODEL_NOTE = "modelled: the CRDT at unit granularity (one item per clock tick, coq/Crdt/Doc.v): YATA integration transcribed from Item::resolve_conflict / integrate_item, deletion incl. nested subtrees, dependency-driven delivery; NOT modelled (correspondence only): block split / squash / slices, BlockIter, observers, sub-document life cycle, weak-link bookkeeping"
+
+PROPS["C01"] = {
+    "level": "proof",
+    "theorems": _GEN["C01"],
+    "theorem_kinds": {"C01_sequence_order_converges_5x3": "finite, kernel-checked enumeration (vm_compute), bound in the statement",
+                      "C01_sequence_order_converges_6x2": "finite", "C01_sequence_order_converges_4x4": "finite",
+                      "C01_integrated_set_is_schedule_independent": "unbounded", "C01_delete_sets_commute": "unbounded",
+                      "C01_full": "stated as a Definition, NOT proved unbounded for items with right origins (partial)"},
+    "rule": HIST_RULE + "; implementation-only oracle at quiescence: all replicas expose the same content through the public read API (text diff with attributes, arrays, maps, XML tree with sorted attributes, nested types) and the same item order incl. tombstones",
+    "trusted_base": [_MODEL_NOTE, "the unbounded convergence of the ORDER of concurrent sequence insertions with right origins is not proved (no mechanised proof of the Yjs scan is known); it is covered by the finite theorems and by the per-step tombstone-order correspondence"],
+    "modelled_not_verified": ["block-level integration (units of a block integrated atomically)", "BlockPicker order", "v2 encoding (the model consumes the v1 form of every update; v2 deliveries are checked by the implementation-only oracle)"],
+    "assumptions": ["gc off and cleanup_formatting off on all replicas of these histories (C15 covers gc)", "embeds / format values are JSON-representable (they travel as JSON text)"],
+    "coq_timeout": 2400,
+}
+PROPS["C05"] = {
+    "level": "proof", "theorems": _GEN["C05"], "theorem_kinds": {},
+    "rule": "key-focused seeded histories on the root map (2..5 replicas, 3 keys, unique tagged writes, nested map values, remove, clear, 1..3 calls per transaction; causal delivery while authors are active, arbitrary order afterwards); happened-before is computed by the harness from what each author had integrated; on every causally closed state of every replica: the visible value of a key was written by an operation that no received operation on the key causally follows, an absent key has a causally maximal removal, a maximal write may be invisible only if a concurrent WRITE exists, contains_key/len agree, deleted nested types have no live item below them; the model's render is compared after every step; plus the general histories of C01 restricted to map failures. Non-trivial = at least two operations on one key that are concurrent",
+    "trusted_base": [_MODEL_NOTE], "modelled_not_verified": ["Branch.map pointer maintenance on split/squash"], "assumptions": [],
+}
+PROPS["C06"] = {
+    "level": "proof", "theorems": _GEN["C06"], "theorem_kinds": {},
+    "rule": "seeded 2..4 replica histories with out-of-order deliveries (stashes, gaps); every ordered pair (A,B) of final replica states (B re-created by replaying exactly what it applied) x {encode_diff, encode_state_as_update} x {v1,v2} x {B's own vector, a stale vector recorded earlier}: B dominates A afterwards (state vector, integrated ids, deleted ids), the state vector never decreases, re-applying changes nothing, a diff against the own vector changes nothing, exchanging until nothing changes makes both equal. Non-trivial = a pair where one side has a gap or a stash",
+    "trusted_base": [_MODEL_NOTE, "diff / state-vector theorems are at operation-set level (coq/Crdt/SyncProofs.v); slice encoding of partially known blocks is covered by the correspondence only"],
+    "modelled_not_verified": ["Store::write_blocks_from offsets / ItemSlice::encode", "v2 run-length state"], "assumptions": [],
+}
+PROPS["C07"] = {
+    "level": "proof", "theorems": _GEN["C07"], "theorem_kinds": {},
+    "rule": "a leader (gc on in 1/3 of the cases) with v1+v2 update observers performs 6..16 transactions: local edits over all types, remote updates of two other replicas (any order, duplicates, partially known), undo / redo, empty transactions; two passive followers (cleanup off) fed only by the v1 / v2 stream are compared with the leader (public content) after EVERY transaction; a model follower fed by the v1 stream through the Coq decoder is compared at item level; the number of events per transaction is checked against whether the integrated or deleted id set changed. Non-trivial = the leader applied at least one remote update",
+    "trusted_base": [_MODEL_NOTE], "modelled_not_verified": ["TransactionMut::encode_update byte layout", "commit ordering (cleanup, gc, squash before emit)"], "assumptions": [],
+}
+PROPS["C08"] = {
+    "level": "proof", "theorems": _GEN["C08"], "theorem_kinds": {},
+    "rule": "update pools from seeded histories (transaction updates, diffs against stale vectors, full states of replicas with gaps and GC blocks): merge_updates vs sequential application (v1, v2; duplicates, shuffled, nested), diff_updates vs apply, encode_state_vector_from_update on gap-free states; the Coq model decodes merged v1 updates and must reach the state it reaches from the inputs. Documents are compared on public content, visible item order, integrated and deleted id sets, pending flag. Because yrs stashes the rest of a client's blocks behind a block with a missing dependency, a merged update may lag behind the sequential application until the dependency arrives: such a difference is accepted only if it disappears once every message of the history is delivered (counted as c08_merge_stash_lag_only)",
+    "trusted_base": [_MODEL_NOTE, "the 170-line k-way merge (Update::merge_updates) is not transcribed: its specification (union of operation sets and delete sets) is the model"],
+    "modelled_not_verified": ["Update::merge_updates control flow", "Update::encode_diff slicing"], "assumptions": [],
+}
+PROPS["C13"] = {
+    "level": "proof", "theorems": _GEN["C13"], "theorem_kinds": {},
+    "rule": "1..3 replica seeded histories (FIFO in 2/3 of the cases); snapshots of replica 0 at random points; after every later step every earlier snapshot is restored into a fresh document (encode_state_from_snapshot v1 and v2) and compared with the content recorded when it was taken; snapshot codec round trip v1/v2; a gc document must refuse. Non-trivial = at least two snapshots in the history",
+    "trusted_base": [_MODEL_NOTE, "content-level equality of the restored document relies on convergence (C01); the theorems give the integrated id set and the deletion flags"],
+    "modelled_not_verified": ["Store::write_blocks_to / ItemSlice::encode / ItemContent::encode_slice (block slicing is what the unit model abstracts away; covered by the correspondence)"],
+    "assumptions": ["a snapshot taken while the store has gaps cannot be exact with a state-vector shaped snapshot: known finding"],
+}
